@@ -1,5 +1,5 @@
 """C03 — saved files are valid PDF for a strict third-party reader."""
-import json
+import json, os
 import vlib
 from vlib import Check
 import lifecycle
@@ -14,8 +14,8 @@ META = {
             "what the scan found (20-byte entries, exact header offsets and generations, one-to-one correspondence with the objects, W/Index/Length "
             "of XRef streams incl. the self entry, startxref target, Size > every object number). The recovered view must equal the saved document.",
     "note": "Trusted: TLC, the transcription of ISO 32000-1 7.2-7.5 in Syntax.tla/FileStructure.tla, the harness projection. Inputs are sampled. "
-            "Incremental saves are validated by the C07 check (same reader).",
-    "bins": ['c01'],
+            "Incremental saves: IncrementalDocument rounds on lopdf-written and Producer-written bases, judged by Lifecycle!JudgeSaveInc.",
+    "bins": ['c01', 'c02', 'c07'],
     "seq_bins": ['loadseq'],
     "modules": ['Trace_Lifecycle.tla'],
     "design_ref": "DESIGN.md section 4 C03",
@@ -50,8 +50,22 @@ def run(tier):
         else:
             sig = "C03:" + v["v"] + ((":" + v["d"]["err"]) if "err" in v["d"] else "")
             chk.violation(sig, {"verdict": v["d"], "doc": rec["doc"], "bytes": rec["bytes"], "fmt": rec["fmt"]})
+    # incremental saves (C03 quantifies over plain AND incremental save): rounds of IncrementalDocument edits on
+    # lopdf's own files and on Producer files, the appended revision judged by the same strict reader
+    import c02, c07
+    from vlib import run_bin, workdir, write_ndjson, read_ndjson
+    w = workdir("c03inc")
+    r_gen, bases = c02.gen_files(w, "b", 30, 60 if tier == "quick" else 600, vlib.seed() + 3, 6, 2)
+    chk.add_tlc(r_gen)
+    bp, tr2 = os.path.join(w, "bases.ndjson"), os.path.join(w, "inc.ndjson")
+    write_ndjson(bp, bases)
+    run_bin("c07", ["record", "--seed", vlib.seed() + 3, "--n", 30 if tier == "quick" else 600, "--bases", bp, "--out", tr2])
+    c07.judge(chk, read_ndjson(tr2), "c03inc", tier, from_producer=False, prefix="C03")
     for r in recs:
         if r["ev"] == "Save" and r["res"] == "ok" and len(r["doc"]["objects"]) >= 2:
             chk.sample({"fmt": r["fmt"], "saved_bytes_ascii": bytes(r["bytes"]).decode("latin-1")[:600]}, cap=2)
-    chk.extra["negative_controls_rejected"] = lifecycle.negative_controls("c03", recs)
+    if lifecycle.VACUITY and not chk.violations:
+        raise vlib.ToolError(lifecycle.VACUITY)
+    if not chk.violations:
+        chk.extra["negative_controls_rejected"] = lifecycle.negative_controls("c03", recs)
     return chk.finish()
